@@ -4,8 +4,8 @@
 use std::sync::atomic::{AtomicU64, Ordering};
 use std::sync::{Arc, Mutex};
 
-use tokio::io::{AsyncReadExt, AsyncWriteExt};
-use tokio::net::{TcpListener, TcpStream};
+use tokio::io::{AsyncRead, AsyncReadExt, AsyncWrite, AsyncWriteExt};
+use tokio::net::{TcpListener, UnixListener};
 
 #[derive(Clone, Copy, Debug, PartialEq, Eq)]
 pub enum PingFault {
@@ -120,6 +120,41 @@ pub async fn start(port: u16) -> std::io::Result<(Arc<RServer>, u16, tokio::task
     Ok((server, port, h))
 }
 
+static SOCKETS: AtomicU64 = AtomicU64::new(0);
+
+/// Removes the socket file when the server goes away.
+pub struct SocketPath(pub std::path::PathBuf);
+impl Drop for SocketPath {
+    fn drop(&mut self) {
+        let _ = std::fs::remove_file(&self.0);
+    }
+}
+
+/// The same scripted server on a unix domain socket. The random histories open tens of thousands of connections
+/// in a minute; on loopback TCP that exhausts the ephemeral ports (TIME_WAIT) and `bind` fails with AddrInUse.
+pub async fn start_unix() -> std::io::Result<(Arc<RServer>, SocketPath, tokio::task::JoinHandle<()>)> {
+    let n = SOCKETS.fetch_add(1, Ordering::SeqCst);
+    let path = std::env::temp_dir().join(format!("vh-redis-{}-{}.sock", std::process::id(), n));
+    let _ = std::fs::remove_file(&path);
+    let listener = UnixListener::bind(&path)?;
+    let server = Arc::new(RServer::default());
+    *server.role.lock().unwrap() = "master".into();
+    let srv = server.clone();
+    let h = tokio::spawn(async move {
+        loop {
+            let Ok((s, _)) = listener.accept().await else { break };
+            let st = Arc::new(Mutex::new(RConn::default()));
+            let k = {
+                let mut c = srv.conns.lock().unwrap();
+                c.push(st.clone());
+                c.len() - 1
+            };
+            drop(tokio::spawn(serve(s, k, st, srv.clone())));
+        }
+    });
+    Ok((server, SocketPath(path), h))
+}
+
 fn parse(buf: &[u8]) -> Option<(Vec<String>, usize)> {
     // *N\r\n($len\r\n bytes\r\n)*
     let mut pos = 0;
@@ -158,7 +193,7 @@ fn bulk(s: &str) -> Vec<u8> {
     format!("${}\r\n{}\r\n", s.len(), s).into_bytes()
 }
 
-async fn serve(mut s: TcpStream, k: usize, st: Arc<Mutex<RConn>>, server: Arc<RServer>) {
+async fn serve<S: AsyncRead + AsyncWrite + Unpin>(mut s: S, k: usize, st: Arc<Mutex<RConn>>, server: Arc<RServer>) {
     let mut buf: Vec<u8> = Vec::new();
     let mut tmp = [0u8; 4096];
     'outer: loop {
